@@ -43,6 +43,28 @@ func AsCmp(c Cond) (Cmp, bool) {
 		}
 		return Cmp{token.NEQ, call.Call.Args[0], call.Call.Args[1], c.If}, true
 	}
+	if call, isCall := c.V.(*ssa.Call); isCall && len(call.Call.Args) == 1 {
+		// a private predicate that only compares its argument with one sentinel (`isQueueFullErr(err)` =
+		// `errors.Is(err, ErrQueueIsFull)` / `err == ErrQueueIsFull`) reads as that comparison of the argument
+		if g := Callee(&call.Call); g != nil && len(g.Blocks) == 1 && len(g.Params) == 1 && g.Object() != nil && !g.Object().Exported() {
+			if ret, isRet := g.Blocks[0].Instrs[len(g.Blocks[0].Instrs)-1].(*ssa.Return); isRet && len(ret.Results) == 1 {
+				if inner, okI := AsCmp(Cond{V: ret.Results[0], True: true}); okI && inner.Op == token.EQL {
+					var other ssa.Value
+					if Resolve(inner.X) == ssa.Value(g.Params[0]) {
+						other = inner.Y
+					} else if Resolve(inner.Y) == ssa.Value(g.Params[0]) {
+						other = inner.X
+					}
+					if other != nil && GlobalName(other) != "" {
+						if c.True {
+							return Cmp{token.EQL, call.Call.Args[0], other, c.If}, true
+						}
+						return Cmp{token.NEQ, call.Call.Args[0], other, c.If}, true
+					}
+				}
+			}
+		}
+	}
 	b, ok := c.V.(*ssa.BinOp)
 	if !ok {
 		return Cmp{}, false
